@@ -139,6 +139,39 @@ def eval_call(I: Interp, node: ast.Call, fr: Frame):
             v = I.dict_get(SV(d.t, dty if dty.k == "dict" else T.DICT()), k)
             st.assume_wt(v)
             return v
+        if n == "psum":  # psum(k, lo, hi, body) = sum of body for k in [lo, hi): a function F with F(lo)=0, F(k+1)=F(k)+body(k)
+            name = node.args[0].id
+            lo, _ = I.num(I.ev(node.args[1], fr))
+            hi, _ = I.num(I.ev(node.args[2], fr))
+            kv = z3.Int(f"{name}!ps{id(node) % 10**9}")
+            qf = Frame(fr.module, fr.cls, fr.selfv, fr.finfo, fr, fr.contract)
+            qf.locals[name] = SV(smt.mk_int(kv), T.INT)
+            st.binder_asms.append([])
+            st.spec_depth += 1
+            try:
+                body, isr = I.num(I.to_sv(I.ev(node.args[3], qf)))
+            finally:
+                st.spec_depth -= 1
+                asms = st.binder_asms.pop()
+            if not isr:
+                body = z3.ToReal(body)
+            rng = kv >= lo
+            for a_ in asms:
+                st.assume(z3.ForAll([kv], z3.Implies(rng, a_)))
+            F = z3.Function(f"psum!{body.get_id()}", smt.I, smt.R)
+            key = ("psum", body.get_id(), smt.simp(lo).get_id())
+            done = st.cfg.setdefault("_psum_done", set())
+            if key not in done:
+                done.add(key)
+                st.assume(F(lo) == 0)
+                Kg = st.cfg.get("ground")
+                if Kg:
+                    for c_ in range(Kg + 1):
+                        at = smt.simp(lo + c_)
+                        st.assume(F(at + 1) == F(at) + z3.substitute(body, (kv, at)))
+                else:
+                    st.assume(z3.ForAll([kv], z3.Implies(rng, F(kv + 1) == F(kv) + body)))
+            return SV(smt.mk_real(F(hi)), T.FLOAT)
         if n == "same_dict_except":  # same_dict_except(d, k): every key other than k is in d with the value it had in the old state (and vice versa)
             d = I.to_sv(I.ev(node.args[0], fr))
             kx = I.to_sv(I.ev(node.args[1], fr))
@@ -641,7 +674,7 @@ def apply_contract(I: Interp, con: Contract, finfo: FuncInfo, selfv, args, kwarg
     rty = return_type(finfo)
     result = fresh_of_type(I, f"ret_{finfo.name}", rty)
     sf.locals["result"] = result
-    for f in preserve_formulas(I, con.preserves, sf, old):
+    for f in preserve_formulas(I, con.preserves, sf, old, rewrite=True):
         st.assume(f)
     st.old_stack.append(old)
     st.fresh_base.append(old_alloc)
@@ -655,6 +688,8 @@ def apply_contract(I: Interp, con: Contract, finfo: FuncInfo, selfv, args, kwarg
         raise Refuse(f"contract of {finfo.key} is inconsistent with the state at its call site (line {line}): vacuous proof refused")
     for kind, evargs, cond in pending_events:
         append_event(st, kind, evargs, cond)
+    for ev in con.emits_after:
+        append_event(st, ev[0], [I.to_sv(ev_spec(I, a, sf)).t for a in ev[1]])
     st.log.append(f"contract {finfo.key}")
     st.call_records.append({"callee": finfo.key, "line": line, "result": result, "heap_after": dict(st.heap)})
     return result
@@ -784,7 +819,7 @@ def _havoc(I: Interp, modifies, sf: Frame):
         raise Refuse(f"modifies clause {m}")
 
 
-def preserve_formulas(I: Interp, entries, sf: Frame, old: dict):
+def preserve_formulas(I: Interp, entries, sf: Frame, old: dict, rewrite=False):
     """Formulas stating that the listed locations have in the current heap the value they had in `old`.
     Entry syntax as in modifies: `x.attr` (one location), `Class.attr` (all objects of the class), `x[*]` / `x{*}`
     (contents of one list / dict, the reference being evaluated in the old state)."""
@@ -819,7 +854,11 @@ def preserve_formulas(I: Interp, entries, sf: Frame, old: dict):
         ci = class_named(tree.value, sf)
         if ci is not None:
             rr = z3.Int("r!pres")
-            out.append(z3.ForAll([rr], z3.Implies(st.subclass_pred(z3.Select(st.arr("cls"), rr), ci), z3.Select(cur, rr) == z3.Select(was, rr))))
+            if rewrite:
+                # exact and quantifier-free: objects of the class keep their old value, everything else stays havocked
+                st.heap[key] = z3.Lambda([rr], z3.If(st.subclass_pred(z3.Select(st.arr("cls"), rr), ci), z3.Select(was, rr), z3.Select(cur, rr)))
+            else:
+                out.append(z3.ForAll([rr], z3.Implies(st.subclass_pred(z3.Select(st.arr("cls"), rr), ci), z3.Select(cur, rr) == z3.Select(was, rr))))
         else:
             saved = st.heap
             st.heap = dict(old)
